@@ -45,7 +45,7 @@ def case_strategy(draw):
         c["fn"] = draw(st.sampled_from(["prop", "p", "proportion"]))
         c["trials"] = draw(st.sampled_from(["n", "n", "40", "trials=n", "trials=40", "n + 1"]))
     elif kind == "prop_invalid":
-        c["what"] = draw(st.sampled_from(["float_successes", "successes_gt_trials", "float_trials", "float_constant", "successes_not_a_name"]))
+        c["what"] = draw(st.sampled_from(["float_successes", "successes_gt_trials", "successes_gt_trials_one_row", "float_successes_one_row", "float_trials", "float_constant", "successes_not_a_name"]))
     elif kind == "identity":
         c["expr"] = draw(st.sampled_from(["x + z", "x * 2", "x ** 2", "(x + z) / 2", "-x", "x - z * 3", "np.abs(x)", "x > 0"]))
         c["brace"] = draw(st.booleans())
@@ -215,6 +215,13 @@ def judge(ctx, case):
         elif what == "successes_gt_trials":
             fr["s"] = fr["n"] + 1
             formula = "prop(s, n) ~ x"
+        elif what == "successes_gt_trials_one_row":
+            fr["s"] = fr["s"].where(np.arange(len(fr)) != len(fr) // 2, fr["n"] + 2)
+            formula = "prop(s, n) ~ x"
+        elif what == "float_successes_one_row":
+            fr["s"] = fr["s"].astype(float)
+            fr.loc[fr.index[-1], "s"] = 0.5
+            formula = "prop(s, 50) ~ x"
         elif what == "float_trials":
             fr["n"] = fr["n"].astype(float) + 0.25
             formula = "prop(s, n) ~ x"
